@@ -601,6 +601,8 @@ pub struct Oracle {
     pub connect_errors: Vec<(u64, String)>,
     pub streams_opened: u64,
     pub late_results: Vec<(u64, bool)>,
+    /// server-side stream handlers currently running
+    pub server_active: i64,
 }
 
 type SharedOracle = Arc<Mutex<Oracle>>;
@@ -824,18 +826,20 @@ pub struct Outcome {
     pub harness_problem: Option<String>,
 }
 
-fn judge(sc: &Scenario, o: &Oracle, timed_out: bool, vanish_t0_us: Option<u64>, end_us: u64, net: NetStats) -> Outcome {
+fn judge(sc: &Scenario, o: &Oracle, hanging: Vec<String>, vanish_t0_us: Option<u64>, end_us: u64, net: NetStats) -> Outcome {
+    let timed_out = !hanging.is_empty();
     let t = if sc.transport == "tcp" { "tcp" } else { "udp" };
     let mut findings = o.findings.clone();
     let mut features = vec![format!("class={}", sc.class)];
     let vanished = sc.vanish != VanishKind::None;
 
     if timed_out {
-        let mut ops: Vec<String> = o.pending.values().map(|(w, since)| format!("{w} (pending since {} ms)", since / 1000)).collect();
+        let mut ops = hanging.clone();
         ops.truncate(6);
-        let kind = o.pending.values().next().map(|(w, _)| {
-            // "s0.client.rx:read@123" -> "client.rx:read"
+        let kind = hanging.first().map(|w| {
+            // "s0.client.rx:read@123 (pending ...)" -> "client.rx:read"
             let w = w.split('@').next().unwrap_or("");
+            let w = w.split(' ').next().unwrap_or("");
             w.split_once('.').map(|x| x.1).unwrap_or(w).to_string()
         }).unwrap_or_else(|| "none".into());
         findings.push(Finding {
@@ -923,6 +927,9 @@ fn judge(sc: &Scenario, o: &Oracle, timed_out: bool, vanish_t0_us: Option<u64>, 
         if s.client.write_stop_at.is_some() || s.server.write_stop_at.is_some() { "w" } else if s.client.read_stop_at.is_some() || s.server.read_stop_at.is_some() { "r" } else { "-" })).take(2).collect::<Vec<_>>().join(",")));
     features.push(format!("dropped={}", net.dropped_random + net.dropped_burst + net.dropped_kth > 0));
     features.push(format!("vanish={}", sc.vanish.name()));
+    if sc.class == "kth_enum" {
+        features.push(format!("k={:?}", sc.net.drop_kth));
+    }
 
     Outcome {
         findings,
@@ -979,7 +986,7 @@ pub fn run_sim(sc: &Scenario) -> Outcome {
             o.dirs.push(DirState { key: mix(sc.key, 2 * i as u64 + 1), intended: st.server.write_stop_at.unwrap_or(st.server.write_len), ..Default::default() });
         }
     }
-    let result: Arc<Mutex<(bool, Option<u64>, u64)>> = Arc::new(Mutex::new((false, None, 0)));
+    let result: Arc<Mutex<(Vec<String>, Option<u64>, u64)>> = Arc::new(Mutex::new((Vec::new(), None, 0)));
 
     let queues = FaultyQueues { ctl: ctl.clone() };
     let mut rt = bach::environment::default::Runtime::new()
@@ -1094,15 +1101,27 @@ pub fn run_sim(sc: &Scenario) -> Outcome {
             }
 
             let mut vanish_t0 = None;
-            let all = async {
+            let oracle_q = oracle.clone();
+            let mut all = Box::pin(async move {
                 for h in handles {
                     let _ = h.await;
                 }
+                server_quiesce(&oracle_q).await;
+            });
+            let pending_ops = |oracle: &SharedOracle, only_client: bool| -> Vec<String> {
+                let o = oracle.lock().unwrap();
+                o.pending
+                    .values()
+                    .filter(|(w, _)| !only_client || w.contains("client"))
+                    .map(|(w, since)| format!("{w} (pending since {} ms)", since / 1000))
+                    .collect()
             };
-            let timed_out;
+            let mut hanging: Vec<String> = Vec::new();
             match sc.vanish {
                 VanishKind::None => {
-                    timed_out = bach::time::timeout(LIVE_DEADLINE, all).await.is_err();
+                    if bach::time::timeout(LIVE_DEADLINE, &mut all).await.is_err() {
+                        hanging = pending_ops(&oracle, false);
+                    }
                 }
                 VanishKind::Blackhole | VanishKind::ServerMute => {
                     let t0 = sc.vanish_at_us;
@@ -1121,8 +1140,20 @@ pub fn run_sim(sc: &Scenario) -> Outcome {
                     };
                     flip.spawn();
                     vanish_t0 = Some(t0);
+                    // phase 1: whoever lost its peer at t0 must be done by t0 + idle + slack.
+                    // With a mute server only the client lost its peer at t0; the server keeps
+                    // hearing the client until the client gives up, so the server gets a
+                    // second idle period.
                     let deadline = Duration::from_micros(t0) + IDLE_TIMEOUT + VANISH_SLACK;
-                    timed_out = bach::time::timeout(deadline, all).await.is_err();
+                    if bach::time::timeout(deadline, &mut all).await.is_err() {
+                        hanging = pending_ops(&oracle, sc.vanish == VanishKind::ServerMute);
+                        if hanging.is_empty() {
+                            // phase 2 (server side of a mute-server scenario)
+                            if bach::time::timeout(IDLE_TIMEOUT + VANISH_SLACK, &mut all).await.is_err() {
+                                hanging = pending_ops(&oracle, false);
+                            }
+                        }
+                    }
                 }
                 VanishKind::DropState => {
                     let t0 = sc.vanish_at_us;
@@ -1142,19 +1173,21 @@ pub fn run_sim(sc: &Scenario) -> Outcome {
                                 let mut gl = oracle.lock().unwrap();
                                 gl.late_results.push((started, ok));
                                 if !ok {
-                                    gl.errors.push((format!("late{j}.client"), now_us(), "unknown_path_secret".into()));
+                                    gl.errors.push((format!("late{j}.client:stream"), now_us(), "failed".into()));
                                 }
                             }
                         }
                     };
                     let both = async {
-                        tokio::join!(all, late);
+                        tokio::join!(&mut all, late);
                     };
                     let deadline = Duration::from_micros(t0) + IDLE_TIMEOUT + VANISH_SLACK;
-                    timed_out = bach::time::timeout(deadline.max(Duration::from_secs(60)), both).await.is_err();
+                    if bach::time::timeout(deadline.max(Duration::from_secs(60)), both).await.is_err() {
+                        hanging = pending_ops(&oracle, false);
+                    }
                 }
             }
-            *result.lock().unwrap() = (timed_out, vanish_t0, now_us());
+            *result.lock().unwrap() = (hanging, vanish_t0, now_us());
         }
         .group("client")
         .primary()
@@ -1162,10 +1195,10 @@ pub fn run_sim(sc: &Scenario) -> Outcome {
     });
     drop(rt);
 
-    let (timed_out, vanish_t0, end_us) = *result.lock().unwrap();
+    let (hanging, vanish_t0, end_us) = result.lock().unwrap().clone();
     let net = ctl.lock().unwrap().stats.clone();
     let o = oracle.lock().unwrap();
-    let mut out = judge(sc, &o, timed_out, vanish_t0, end_us, net);
+    let mut out = judge(sc, &o, hanging, vanish_t0, end_us, net);
     if end_us == 0 {
         out.harness_problem = Some("the controller task never finished (simulation ended early)".into());
     }
@@ -1196,7 +1229,27 @@ async fn late_stream(client: &Client, j: u64) -> bool {
 }
 
 /// server side of one accepted stream: read the index preamble, then run the server plan
-async fn serve(mut stream: Stream, sc: Scenario, oracle: SharedOracle) {
+async fn serve(stream: Stream, sc: Scenario, oracle: SharedOracle) {
+    oracle.lock().unwrap().server_active += 1;
+    serve_inner(stream, sc, oracle.clone()).await;
+    oracle.lock().unwrap().server_active -= 1;
+}
+
+/// wait until no server-side handler is running (checked over a quiet period, so handlers
+/// of streams whose first packet is still in flight get a chance to start)
+async fn server_quiesce(oracle: &SharedOracle) {
+    let mut quiet = 0;
+    while quiet < 20 {
+        s2n_quic_dc::testing::sleep(Duration::from_millis(1)).await;
+        if oracle.lock().unwrap().server_active == 0 {
+            quiet += 1;
+        } else {
+            quiet = 0;
+        }
+    }
+}
+
+async fn serve_inner(mut stream: Stream, sc: Scenario, oracle: SharedOracle) {
     let mut pre = [0u8; 8];
     let g = OpGuard::new(&oracle, "server:preamble".into());
     let r = stream.read_exact(&mut pre).await;
@@ -1285,10 +1338,12 @@ pub fn run_tcp(sc: &Scenario) -> Outcome {
                 }
             });
         }
-        let all = async {
+        let oracle_q = oracle.clone();
+        let all = async move {
             while let Some(r) = set.join_next().await {
                 let _ = r;
             }
+            server_quiesce(&oracle_q).await;
         };
         // real time: the stream idle timeout is 30 s; nothing here should take even 1 s
         tokio::time::timeout(IDLE_TIMEOUT + VANISH_SLACK, all).await.is_err()
@@ -1296,7 +1351,9 @@ pub fn run_tcp(sc: &Scenario) -> Outcome {
     rt.shutdown_background();
     let end_us = started.elapsed().as_micros() as u64;
     let o = oracle.lock().unwrap();
-    judge(sc, &o, timed_out, None, end_us, NetStats::default())
+    let hanging: Vec<String> = if timed_out { o.pending.values().map(|(w, since)| format!("{w} (pending since {} ms)", since / 1000)).collect::<Vec<_>>() } else { Vec::new() };
+    let hanging = if timed_out && hanging.is_empty() { vec!["unknown (join pending)".to_string()] } else { hanging };
+    judge(sc, &o, hanging, None, end_us, NetStats::default())
 }
 
 // ---------------------------------------------------------------------------------------
@@ -1363,6 +1420,72 @@ fn run_one(sc: &Scenario) -> Result<Outcome, String> {
     std::panic::catch_unwind(move || if sc.transport == "tcp" { run_tcp(&sc) } else { run_sim(&sc) }).map_err(known::panic_text)
 }
 
+/// Fault enumeration for small flows: run the flow once without loss to learn how many
+/// packets it takes (N), then once per k in 0..N with exactly the k-th packet dropped.
+fn kth_enumeration(seed: u64, start: u64, flows: u64, verbose: bool, sum: &mut Summary) {
+    const MAX_K: u64 = 96;
+    for f in start..start + flows {
+        let mut rng = Rng::new(mix(seed, 0x2200_0000 + f));
+        let mut half = |rng: &mut Rng| HalfPlan {
+            write_len: *rng.pick(&[0u64, 1, 700, 3000, 9000, 20_000, 40_000]),
+            write_chunk: *rng.pick(&[1000usize, 4000, 65_536]),
+            finish: if rng.chance(2, 3) { Finish::Shutdown } else { Finish::Drop },
+            write_stop_at: None,
+            max_read: *rng.pick(&[100usize, 1500, 65_536]),
+            read_stop_at: None,
+            pause_us: 0,
+            pause_every: 0,
+            write_after_read: false,
+        };
+        let client = half(&mut rng);
+        let mut server = half(&mut rng);
+        server.write_after_read = rng.chance(1, 2);
+        let base = Scenario {
+            transport: "udp",
+            class: "kth_enum".into(),
+            net: NetSpec { latency_us: 500, net_seed: rng.next(), ..Default::default() },
+            client_mtu: *rng.pick(&[None, Some(1250u16), Some(4000)]),
+            server_mtu: *rng.pick(&[None, Some(1250u16), Some(4000)]),
+            streams: vec![StreamSpec { start_us: 0, client, server }],
+            vanish: VanishKind::None,
+            vanish_at_us: 0,
+            key: rng.next(),
+        };
+        let Ok(clean) = run_one(&base) else {
+            sum.inconclusive.push(format!("c20: kth enumeration flow {f}: baseline run panicked"));
+            continue;
+        };
+        let case_id = 1_000_000 + f * 1000;
+        account(sum, &base, &clean, seed, case_id);
+        let n = clean.net.sent;
+        sum.count("kth_flows", 1);
+        sum.max("kth_flow_packets_max", n as i64);
+        if n <= MAX_K {
+            sum.count("kth_flows_fully_enumerated", 1);
+        }
+        for k in 0..n.min(MAX_K) {
+            let mut sc = base.clone();
+            sc.net.drop_kth = vec![k];
+            match run_one(&sc) {
+                Ok(out) => {
+                    if verbose {
+                        eprintln!("[c20] kth flow {f} k={k}/{n}: dropped {} sent {} virtual {} ms findings {}", out.net.dropped_kth, out.net.sent, out.virtual_ms, out.findings.len());
+                    }
+                    sum.count("kth_runs", 1);
+                    sum.max("kth_recovery_virtual_ms_max", out.virtual_ms as i64);
+                    account(sum, &sc, &out, seed, case_id + 1 + k);
+                }
+                Err(msg) => sum.violation(Violation {
+                    property: "C20".into(),
+                    signature: format!("c20:udp:panic:{}", known::panic_sig(&msg)),
+                    what: format!("panic inside the simulated stream scenario: {msg}"),
+                    replay: json!({"check":"c20","seed":seed,"case":case_id + 1 + k,"scenario":scenario_json(&sc)}),
+                }),
+            }
+        }
+    }
+}
+
 pub fn run(args: &BTreeMap<String, String>, sum: &mut Summary) {
     let seed = vq_util::arg_u64(args, "seed", 1);
     let iters = vq_util::arg_u64(args, "iters", 20);
@@ -1371,6 +1494,10 @@ pub fn run(args: &BTreeMap<String, String>, sum: &mut Summary) {
     let start = vq_util::arg_u64(args, "start", 0);
     let only = args.get("class").cloned();
     let verbose = args.contains_key("verbose");
+    let kth_flows = vq_util::arg_u64(args, "kth-flows", if only.is_none() { (iters / 25).max(1) } else { 0 });
+    if (transport == "udp" || transport == "both") && kth_flows > 0 {
+        kth_enumeration(seed, start, kth_flows, verbose, sum);
+    }
     if transport == "udp" || transport == "both" {
         for case in start..start + iters {
             let sc = gen_sim_scenario(seed, case, only.as_deref());
